@@ -46,5 +46,51 @@ func (f *Frame) recv(x *ssa.UnOp)         { f.abort("channel receive is not mode
 func (f *Frame) closeChan(v ssa.Value, pos string) { f.abort("close is not modelled") }
 
 func (f *Frame) stdlibCall2(name string, callee *ssa.Function, args []Val, rt types.Type, pos, desc string) Val {
+	s := f.s
+	var ptypes []types.Type
+	if r := callee.Signature.Recv(); r != nil {
+		ptypes = append(ptypes, r.Type())
+	}
+	for i := 0; i < callee.Signature.Params().Len(); i++ {
+		ptypes = append(ptypes, callee.Signature.Params().At(i).Type())
+	}
+	T := func(i int) string { return f.asS(args[i], ptypes[i]).T }
+	switch name {
+	case "strconv.ParseInt", "strconv.ParseUint":
+		signed := "1"
+		rty := types.Typ[types.Int64]
+		if name == "strconv.ParseUint" {
+			signed = "0"
+			rty = types.Typ[types.Uint64]
+		}
+		str, base, bits := T(0), T(1), T(2)
+		ok := app("parse_ok", str, base, bits, signed)
+		rng := app("parse_range", str, base, bits, signed)
+		val := s.freshConst("parsed", "Int")
+		errv := s.freshConst("parseerr", "Any")
+		s.fact(f.wf(val, rty))
+		s.fact(app("is_wf_any", errv))
+		// ok: err == nil and the value is the denotation, which fits the bit size
+		s.fact(implies(ok, and(eq(errv, "nil_any"), eq(val, app("parse_val", str, base, bits, signed)))))
+		s.fact(implies(not(ok), not(eq(errv, "nil_any"))))
+		// syntax error: value 0; range error: value clamped (non-zero in general)
+		s.fact(implies(and(not(ok), not(rng)), eq(val, "0")))
+		s.fact(eq(app("err_is_range", errv), and(not(ok), rng)))
+		s.fact(eq(app("err_is_syntax", errv), and(not(ok), not(rng))))
+		// bit size 0 means int (64 bits)
+		for _, b := range []int{8, 16, 32, 64} {
+			cond := eq(bits, num(int64(b)))
+			if b == 64 {
+				cond = or(cond, eq(bits, "0"))
+			}
+			if signed == "1" {
+				s.fact(implies(cond, and(app("<=", "(- "+pow2Str(uint(b-1))+")", val), app("<", val, pow2Str(uint(b-1))))))
+			} else {
+				s.fact(implies(cond, and(app("<=", "0", val), app("<", val, pow2Str(uint(b))))))
+			}
+		}
+		s.assume("strconv.ParseInt/ParseUint: err == nil exactly when the text is a number of the given base that fits the bit size, the value then being its denotation (parse_ok / parse_val / parse_range uninterpreted); syntax errors return 0")
+		return TupleV{[]Val{S{val, rty}, S{errv, types.Universe.Lookup("error").Type()}}}
+	}
 	return nil
 }
